@@ -29,7 +29,7 @@ def current(repo='/repo'):
 REVIEWED = ['.saturating_sub', 'usize::from', 'u64::try_from', 'u8::try_from', '.expect', '.is_some', '.is_none', '.unwrap_or', '.min',
             '.checked_add', '.swap_remove', '.insert', '.push_front', '.ok_or', '.last', '.contains', '.contains_key', '.is_ok', '.is_err',
             '.pop_back', '.pop_front', '.push_back', '.clear', '.truncate', '.pop', '.push', '.first', '.take', '.extend_from_slice', '.max', '.remove',
-            '.len', '.is_empty', '.unwrap', '.clone']
+            '.len', '.is_empty', '.unwrap', '.clone', '.kind', 'matches!']
 
 
 if __name__ == '__main__':
